@@ -23,7 +23,8 @@ type family struct {
 // the 16 type-confusing byte values of DESIGN §5 C02
 var confusing = []byte{0x00, 0x17, 0x18, 0x19, 0x1a, 0x1b, 0x1f, 0x3b, 0x5b, 0x5f, 0x7b, 0x9b, 0x9f, 0xbb, 0xbf, 0xff}
 
-var nestDepths = []int{16, 64, 255, 256, 257, 1024, 10000}
+var nestDepths = []int{16, 64, 255, 256, 257, 1024, 10000} // thorough tier
+var nestDepthsQuick = []int{16, 256, 257, 10000}           // quick tier: both sides of the 256 cap and the extremes
 
 const nestKinds = 9
 
@@ -160,7 +161,7 @@ type embedded struct {
 // seedFamilies builds all mutation families of one valid encoding. maxPos bounds the number
 // of node positions used by the nest / tag-wrap families (stride selection, deterministic);
 // substAll forces all 255 substitution values. level is the embedding depth.
-func seedFamilies(seedName string, sd []byte, isCbor bool, maxPos int, level int, headsOnly bool) []family {
+func seedFamilies(seedName string, sd []byte, isCbor bool, maxPos int, level int, headsOnly bool, headsOnlyDepths bool) []family {
 	var fams []family
 	L := len(sd)
 	mk := func(name string, n int, get func(i int) []byte) {
@@ -306,6 +307,10 @@ func seedFamilies(seedName string, sd []byte, isCbor bool, maxPos int, level int
 	// (4) nesting: every selected node replaced by a nest of every kind and depth. The
 	// replacement does not depend on the position, so it is cached.
 	np := len(pos)
+	nestDepths := nestDepths
+	if headsOnlyDepths {
+		nestDepths = nestDepthsQuick
+	}
 	mk("nest", np*nestKinds*len(nestDepths), func(i int) []byte {
 		d := i % len(nestDepths)
 		i /= len(nestDepths)
@@ -403,7 +408,7 @@ func seedFamilies(seedName string, sd []byte, isCbor bool, maxPos int, level int
 			inner := append([]byte(nil), n.Bytes...)
 			e := embedded{start: n.Start, hdrEnd: n.HdrEnd, end: n.End}
 			form := []int{-1, 1, 2, 4, 8}[n.Form]
-			sub := seedFamilies(seedName, inner, true, maxPos, level+1, headsOnly)
+			sub := seedFamilies(seedName, inner, true, maxPos, level+1, headsOnly, headsOnlyDepths)
 			for _, f := range sub {
 				f := f
 				mk("emb/"+f.name, f.n, func(i int) []byte {
@@ -429,7 +434,11 @@ func seedFamilies(seedName string, sd []byte, isCbor bool, maxPos int, level int
 }
 
 // standaloneNests: the nested structures as whole inputs.
-func standaloneNests() family {
+func standaloneNests(quick bool) family {
+	nestDepths := nestDepths
+	if quick {
+		nestDepths = nestDepthsQuick
+	}
 	return family{name: "nest-alone", n: nestKinds * len(nestDepths), get: func(i int) []byte {
 		return append([]byte(nil), nestBytes(i/len(nestDepths), nestDepths[i%len(nestDepths)])...)
 	}}
